@@ -3,6 +3,10 @@ package main
 import (
 	"context"
 	"fmt"
+	"github.com/creachadair/jrpc2/channel"
+	"github.com/creachadair/jrpc2/jhttp"
+	"github.com/creachadair/jrpc2/server"
+	"net/http/httptest"
 	"runtime"
 	"strings"
 	"time"
@@ -640,8 +644,79 @@ func c06CancelBehindNote(n int, b Bounds) *Scenario {
 	}
 }
 
+// c06Wrappers: the Concurrency limit given in the server options holds for the servers that server.Loop
+// and jhttp.Bridge build from their options too: a batch of three calls with Concurrency 1 never has two
+// handlers executing.
+func c06Wrappers(kind string) *Scenario {
+	return &Scenario{
+		Name:   "Concurrency 1 given through " + kind + ": three calls at once (one batch; three GET requests)",
+		Params: map[string]any{"wrapper": kind},
+		Bounds: Bounds{1, 1, 0},
+		New: func() *Instance {
+			gates := NewGates()
+			body := func() {
+				inflight, peak := 0, 0
+				hd := func(ctx context.Context, req *jrpc2.Request) (any, error) {
+					inflight++
+					if inflight > peak {
+						peak = inflight
+					}
+					gates.Wait("g")
+					inflight--
+					return 1, nil
+				}
+				so := &jrpc2.ServerOptions{Concurrency: 1}
+				batch := `[{"jsonrpc":"2.0","id":1,"method":"a"},{"jsonrpc":"2.0","id":2,"method":"b"},{"jsonrpc":"2.0","id":3,"method":"c"}]`
+				vs.GoNamed("opener", func() {
+					vs.AwaitQuiescence()
+					vs.Note("peak", fmt.Sprint(peak))
+					gates.Open("g")
+				})
+				switch kind {
+				case "jhttp.Getter":
+					g := jhttp.NewGetter(anyAssigner{hd}, &jhttp.GetterOptions{Server: so})
+					var j Join
+					for _, m := range []string{"a", "b", "c"} {
+						m := m
+						j.Go("get-"+m, func() { g.ServeHTTP(httptest.NewRecorder(), httptest.NewRequest("GET", "/"+m, nil)) })
+					}
+					j.Wait()
+					g.Close()
+				case "jhttp.Bridge":
+					b := jhttp.NewBridge(anyAssigner{hd}, &jhttp.BridgeOptions{Server: so})
+					doHTTP(b, "POST", "application/json", batch)
+					b.Close()
+				default:
+					lib, peer, _ := NewPipe(PipeOpts{Name: "loopconn", CloseUnblocksRecv: true, Quiet: true})
+					acc := &memAccepter{queue: []channel.Channel{lib}}
+					lctx, lcancel := cancelCauseCtx()
+					vs.GoNamed("loop-client", func() {
+						peer.Send([]byte(batch))
+						peer.Recv()
+						peer.Close()
+						vs.AwaitQuiescence()
+						lcancel()
+					})
+					server.Loop(lctx, acc, server.Static(anyAssigner{hd}), &server.LoopOptions{ServerOptions: so})
+					lcancel()
+				}
+			}
+			check := func(x *vs.Exec) []Viol {
+				v := genericRules(x, nil)
+				Hit("C06.R1")
+				if i := findEv(x, 0, "peak"); i >= 0 && x.Log[i].Arg(0) != "1" {
+					v = append(v, Viol{"C06.R1", x.Log[i].Arg(0) + " handlers executing with Concurrency 1 given through " + kind})
+				}
+				return v
+			}
+			return &Instance{Body: body, Check: check}
+		},
+	}
+}
+
 func c06Scenarios(tier string) []*Scenario {
 	var out []*Scenario
+	out = append(out, c06Wrappers("jhttp.Bridge"), c06Wrappers("server.Loop"), c06Wrappers("jhttp.Getter"))
 	out = append(out, batchGates("C06.R2", tier)...)
 	if tier == "quick" {
 		out = append(out, c06Gated(1, 2, false, false, 1, Bounds{1, -1, 1})) // with one environment deviation
